@@ -110,20 +110,7 @@ func c15dispatch(c *an.Ctx) {
 		return
 	}
 	l := an.LoopContaining(loops, execCall.Block())
-	found := false
-	an.Instrs(ioloop, func(in ssa.Instruction) {
-		ta, ok := in.(*ssa.TypeAssert)
-		if !ok || !ta.CommaOk || typeStrShort(ta.AssertedType) != "*protocol.FatalClientErr" || l == nil {
-			return
-		}
-		for _, okv := range an.ResultN(ta, 1) {
-			for _, t := range an.BoolTests(okv) {
-				if !reachesHeader(ioloop, t.True, l) && reachesHeader(ioloop, t.False, l) {
-					found = true
-				}
-			}
-		}
-	})
+	found := fatalDecides(ioloop, l)
 	c.Check(found, ioloop, "fatal error closes, non-fatal continues", execCall.Pos(), "", "IOLoop does not leave the loop exactly when Exec's error is a *FatalClientErr")
 	// Handle: magic "  V1"
 	v1ok := false
